@@ -3,7 +3,7 @@
    compared with the observation of the real fsic.  Definitions only. *)
 From Coq Require Import ZArith List Bool String.
 Import ListNotations.
-Require Import PyBase Locate LocateK Reindex.
+Require Import PyBase Locate LocateIndex LocateK Reindex ReindexPd.
 Open Scope Z_scope.
 Open Scope list_scope.
 
@@ -77,6 +77,7 @@ Fixpoint ac_lookup (dt : dtype) (d : list cell) (t : list ((dtype * list cell) *
 Inductive rkind : Type :=
 | RContainer                                                     (* VectorContainer.reindex *)
 | RModel                                                         (* BaseModel.reindex *)
+| RLinker                                                        (* BaseLinker.reindex *)
 | RPandas (names : list string) (method : option string) (backfill_ bfill_ pad_ ffill_ nearest_ : list string)
           (srt : list (sr_key * outcome (list cell))) (act : list ((dtype * list cell) * outcome (list cell))).
 
@@ -94,11 +95,46 @@ Definition run_rcase (c : rcase) : outcome cst :=
   match r_kind c with
   | RContainer => reindex_M gl ct cast_tbl st (r_new c) 1 (r_fill c) (r_strictarg c) (r_fills c) 1000
   | RModel => model_reindex_M gl ct cast_tbl st (r_new c) 1 (r_fill c) (r_strictarg c) (r_fills c) 1000
+  | RLinker => linker_reindex_M st (r_new c) 1 (r_fill c) (r_strictarg c) (r_fills c) 1000
   | RPandas names method l1 l2 l3 l4 l5 srt act =>
       pandas_reindex_M gl ct cast_tbl (fun _ dt d _ m v => sr_lookup dt d m v srt) (fun dt d => ac_lookup dt d act)
                        st names (r_new c) 1 method (r_fill c) (r_strictarg c) (r_fills c) l1 l2 l3 l4 l5 1000
   end.
-Definition check_rcase (c : rcase) : bool := rout_eqb (run_rcase c) (r_exp c).
+(* the regular-index model of pandas' get_loc / `in` against the recorded answers for the OLD span (as in LocateK.pd_model_ok) *)
+Definition rpd_model_ok (c : rcase) : bool :=
+  match r_old c with
+  | SPandas ls =>
+      match recognise ls with
+      | Some (k, a, s) =>
+          forallb (fun xb : label * bool =>
+                     let x := fst xb in
+                     negb (model_speaks k x)
+                     || (oloc_eqb (to_KeyError (reg_get_loc k a s (List.length ls) x)) (to_KeyError (tbl_get_loc (r_tbl c) ls x))
+                         && Bool.eqb (reg_contains k a s (List.length ls) x) (snd xb)))
+                  (r_in c)
+      | None => true
+      end
+  | _ => true
+  end.
+(* the float64 model of Series.reindex / the casting assignment (ReindexPd.v) against every recorded answer it speaks about *)
+Definition ocells_eqb (a b : outcome (list cell)) : bool :=
+  match a, b with Ret x, Ret y => cells_eqb x y | Raise e, Raise f => exn_eqb e f | _, _ => false end.
+Definition rfloat_model_ok (c : rcase) : bool :=
+  match r_kind c with
+  | RPandas _ _ _ _ _ _ _ srt act =>
+      forallb (fun e : sr_key * outcome (list cell) =>
+                 match e with
+                 | ((DFloat, d, None, PNone), r) => ocells_eqb (float_series_reindex (r_old c) DFloat d (r_new c) None PNone) r
+                 | _ => true
+                 end) srt
+      && forallb (fun e : (dtype * list cell) * outcome (list cell) =>
+                    match e with
+                    | ((DFloat, d), r) => if forallb is_cf d then ocells_eqb (float_assign_cast DFloat d) r else true
+                    | _ => true
+                    end) act
+  | _ => true
+  end.
+Definition check_rcase (c : rcase) : bool := rout_eqb (run_rcase c) (r_exp c) && rpd_model_ok c && rfloat_model_ok c.
 Fixpoint rbad_indices (i : nat) (l : list rcase) : list nat :=
   match l with [] => [] | x :: r => if check_rcase x then rbad_indices (S i) r else i :: rbad_indices (S i) r end.
 
